@@ -371,6 +371,19 @@ def contentSecurity (C : BlockCipher) (env : CsEnv) (cfg : CsCfg) (req : CsReq) 
       else plainNext inner req.body
   else plainNext inner req.body
 
+/-- the two checks of the gate failed (for a method it looks at): the header does not parse or the signature does not verify -/
+def csVerificationFails (env : CsEnv) (cfg : CsCfg) (req : CsReq) : Bool :=
+  gatedMethods.contains req.method &&
+    (match parseContentSecurity env req with
+     | .error _ => true
+     | .ok h => verifySignature env cfg.tol req h != 0)
+
+/-- `LimitContentSecurityHandler(limit, decrypters, tolerance, strict, callbacks...)` with USER callbacks that answer the
+request themselves (`st` = the status they leave: 200 when they write nothing): the default `handleVerificationFailure` is
+NOT installed, so a failed verification ends with the callbacks — strict or not — and the handler is not called -/
+def contentSecurityWithCallbacks (C : BlockCipher) (env : CsEnv) (cfg : CsCfg) (req : CsReq) (inner : Inner) (st : Nat) : Resp :=
+  if csVerificationFails env cfg req then { ran := false, status := st } else contentSecurity C env cfg req inner
+
 /-! ## JWT -/
 
 /-- what `doParseToken` returned -/
@@ -435,6 +448,38 @@ def authorize {V : Type} (verify : String → Parsed (List (String × V))) (h : 
   | .tok true none => (r.1, { ran := false, status := 401, ctx := [] })
   | .tok true (some claims) =>
     (r.1, { ran := true, status := 200, ctx := claims.filter fun kv => !standardClaims.contains kv.1 })
+
+/-! ### the option list of `Authorize` (rest/handler/authhandler.go: `for _, opt := range opts { opt(&authOpts) }`) -/
+
+/-- `AuthorizeOption`: `WithPrevSecret(s)` / `WithUnauthorizedCallback(cb)` (`present` = a non-nil callback) -/
+inductive AuthOption where
+  | prevSecret (s : String)
+  | callback (present : Bool)
+  deriving Repr, DecidableEq
+
+/-- `AuthorizeOptions` -/
+structure AuthOpts where
+  prev     : String := ""
+  callback : Bool := false
+  deriving Repr, DecidableEq
+
+/-- one option applied: each option ASSIGNS its field (`opts.PrevSecret = secret`, `opts.Callback = callback`) -/
+def AuthOption.apply (o : AuthOpts) : AuthOption → AuthOpts
+  | .prevSecret s => { o with prev := s }
+  | .callback present => { o with callback := present }
+
+/-- the options in force after the loop: for each field the LAST option that sets it wins -/
+def authOptions (opts : List AuthOption) : AuthOpts := opts.foldl AuthOption.apply {}
+
+/-- `Authorize(secret, opts...)(next)` -/
+def authorizeWith {V : Type} (verify : String → Parsed (List (String × V))) (h : Hist) (secret : String)
+    (opts : List AuthOption) (clock : Int) : Hist × AuthOut V :=
+  authorize verify h secret (authOptions opts).prev clock
+
+/-- `unauthorized`: the callback (when there is one) goes first and writes through a header-once writer, then 401 is
+written: the client sees the callback's status when it set one (`some st`; an implicit 200 when it only wrote a body),
+otherwise 401 -/
+def unauthorizedStatus (callbackWrote : Option Nat) : Nat := callbackWrote.getD 401
 
 /-! ### the decision table of golang-jwt/v4 as configured by go-zero (key = `[]byte(secret)`, JSON numbers) -/
 
@@ -628,6 +673,66 @@ def csGateVerdict (strict userCallback gatedMethod covered : Bool) : Option Nat 
   if !gatedMethod || covered then none
   else if userCallback then some 200
   else if strict then some 403 else none
+
+/-- what a request to a bound route ends in, as the rest harness observes it -/
+structure RestObs (V : Type) where
+  ran     : Bool                  -- the route's handler was called
+  status  : Nat
+  ctx     : List (String × V)     -- the context values the handler saw (jwt routes)
+  usesRan : Nat                   -- how many `Server.Use` middlewares saw the request
+  deriving Repr, DecidableEq
+
+/-- serving a request through the chain `bindRoute` bound: the two gates decide (`authOut` = `Authorize`'s outcome, `cs` =
+the content-security gate's verdict), every other middleware passes the request on -/
+def restServe {V : Type} (o : RouteOpts) (uses chn : List String) (authOut : AuthOut V) (cs : Option Nat) : RestObs V :=
+  { ran := (runChain (gateVerdict (authVerdict authOut) cs) chn).ran,
+    status := (runChain (gateVerdict (authVerdict authOut) cs) chn).status,
+    ctx := if (runChain (gateVerdict (authVerdict authOut) cs) chn).ran && o.jwt then authOut.ctx else [],
+    usesRan := ((runChain (gateVerdict (authVerdict authOut) cs) chn).saw.filter fun n => uses.contains n).length }
+
+/-! ## the decrypters of ONE route group (rest/engine.go `signatureVerifier`, the loop over `signature.PrivateKeys`) -/
+
+/-- `PrivateKeyConf`: (Fingerprint, KeyFile) -/
+abbrev KeyConf := String × String
+
+/-- the loop of `signatureVerifier`: a map made FRESH for this group (`make(map[string]codec.RsaDecrypter)`), then one
+`decrypters[key.Fingerprint] = NewRsaDecrypter(key.KeyFile)` per configured key, in order; `none` = a key file could not
+be loaded. The map is an association list in assignment order (`decrypterOf`: the last assignment wins). Nothing of the
+engine or of another group goes into it. -/
+def loadDecrypters {D : Type} (load : String → Option D) (keys : List KeyConf) : Option (List (String × D)) :=
+  keys.foldl (fun acc k => acc.bind fun m => (load k.2).map fun d => m ++ [(k.1, d)]) (some [])
+
+/-- `decrypters[fingerprint]` -/
+def decrypterOf {D : Type} (m : List (String × D)) (fp : String) : Option D :=
+  (m.reverse.find? (·.1 = fp)).map (·.2)
+
+/-- the `rsa` parameter of `CsEnv` for a gate that was handed the map `m`:
+`decrypter, ok := decrypters[fingerprint]; if !ok → ErrInvalidPublicKey; decrypter.DecryptBase64(secret)` -/
+def groupRsa {D : Type} (dec : D → String → Option String) (m : List (String × D)) (fp secret : String) : RsaRes :=
+  match decrypterOf m fp with
+  | none => .noKey
+  | some d => match dec d secret with
+    | none => .err
+    | some plain => .ok plain
+
+/-- why `bindFeaturedRoutes` binds nothing of a group -/
+inductive BindErr where
+  | signatureConfig      -- ErrSignatureConfig: strict without keys
+  | keyFile              -- a configured key file could not be loaded
+  deriving Repr, DecidableEq
+
+/-- `signatureVerifier` with the key loading: the decision list first, then — only for a group that gets the gate — the
+loop over the group's keys; any failure means NO route of the group is bound (fail closed) -/
+def verifierFor {D : Type} (load : String → Option D) (o : RouteOpts) (keys : List KeyConf) :
+    Except BindErr (List String → List String) :=
+  match signatureVerifier o with
+  | none => .error .signatureConfig
+  | some v =>
+    if o.sig && o.sigKeys then
+      match loadDecrypters load keys with
+      | none => .error .keyFile
+      | some _ => .ok v
+    else .ok v
 
 /-! ## RSA chunking (core/codec/rsa.go `rsaBase.crypt`) -/
 
